@@ -13,7 +13,7 @@ from a816.symbols import InternalScope
 from vf.contracts.rt import assume, check, ghost, ghost_get
 
 
-def generator_contract(gen, node, resolver, defs, tok, sub_trees, explicit_recursion):
+def generator_contract(gen, node, resolver, defs, tok, sub_trees, explicit_recursion, own_scopes=None):
     assume(resolver.last_used_scope == len(resolver.scopes) - 1)
     scope0 = resolver.current_scope
     n0 = len(resolver.scopes)
@@ -21,11 +21,23 @@ def generator_contract(gen, node, resolver, defs, tok, sub_trees, explicit_recur
     ghost("explicit_recursion", explicit_recursion)
     ghost("n_expansions", 0)
     ghost("callee_raised", False)
+    ghost("scope_nodes", 0)
+    ghost("pop_nodes", 0)
+    ghost("callee_scopes", 0)
     try:
         code = gen(node, resolver, defs, tok)
     except Exception:
         return
     check("errors_of_expanded_statements_propagate", not ghost_get("callee_raised"))
+    if node.kind != "for":
+        # the later passes replay scopes by POSITION: every scope this generator appended itself is announced by exactly one ScopeNode and closed
+        # by exactly one PopScopeNode (whatever its body expands to); .for states the same per iteration (step_for)
+        own = len(resolver.scopes) - n0 - ghost_get("callee_scopes")
+        check("own_scopes_announced_and_closed_by_position_nodes", own == ghost_get("scope_nodes") and own == ghost_get("pop_nodes"))
+        if own_scopes is not None:
+            # a block, a named scope and a macro application each open exactly ONE scope of their own (what they define is local to it);
+            # every other statement kind opens none
+            check("opens_exactly_its_own_scope", own == own_scopes)
     check("enclosing_scope_current_again", resolver.current_scope is scope0)
     check("scope_cursor_consistent", resolver.last_used_scope == len(resolver.scopes) - 1)
     check("scopes_only_appended", len(resolver.scopes) >= n0)
@@ -37,6 +49,9 @@ def code_gen_contract(ast_nodes, resolver, defs):
     scope0 = resolver.current_scope
     n0 = len(resolver.scopes)
     ghost("callee_raised", False)
+    ghost("scope_nodes", 0)
+    ghost("pop_nodes", 0)
+    ghost("callee_scopes", 0)
     try:
         code = _code_gen(ast_nodes, resolver, defs)
     except Exception:
@@ -61,7 +76,8 @@ def step_for(node, resolver, k, g):
     """one iteration of generate_for's loop, for the arbitrary value k of the loop variable: the body (and nothing else) is expanded
     exactly once, in a fresh loop scope whose parent is the enclosing scope, with the variable bound to k WHILE it is expanded"""
     s = ghost_get("last_expansion_scope")
-    return (ghost_get("n_expansions") == 1 and ghost_get("last_expansion_tree") is node.body.body and isinstance(s, InternalScope)
+    return (ghost_get("n_expansions") == 1 and ghost_get("scope_nodes") == 1 and ghost_get("pop_nodes") == 1
+            and ghost_get("last_expansion_tree") is node.body.body and isinstance(s, InternalScope)
             and s.parent is g["scope0"] and ghost_get("last_expansion_bindings").get(node.symbol) == k)
 
 
@@ -76,6 +92,9 @@ def generate_if_selection_contract(node, resolver, defs, tok, v, defined, then_t
     ghost("last_expansion_tree", None)
     ghost("last_expansion_scope", None)
     ghost("callee_raised", False)
+    ghost("scope_nodes", 0)
+    ghost("pop_nodes", 0)
+    ghost("callee_scopes", 0)
     from a816.parse.codegen import generate_if
     try:
         generate_if(node, resolver, defs, tok)
